@@ -866,7 +866,11 @@ func init() {
 	scenarios["c12_finite_rebalance"] = func(raw json.RawMessage) *vrt.Scenario {
 		return &vrt.Scenario{Name: "c12_finite_rebalance", FreeChoices: true, NoTimerAlt: true, MaxSteps: 400000, Main: func() {
 			resetGlobals()
-			hook := []string{"ARE", "BRE", "ARS", "none"}[vrt.Choose(4, true, "slow-hook")]
+			hook := []string{"ARE", "BRE", "ARS", "none", "drained"}[vrt.Choose(5, true, "slow-hook")]
+			// "drained" (round 12): the consumer settles the LAST event of vb1 and then stays busy for 5 s - when the
+			// rebalance closes the session everything is settled and stored, but the end of vb1 has not been seen; the
+			// re-opened session has nothing left to stream: both vBuckets end inside its Open()
+			drained := hook == "drained"
 			o := EnvOpts{Vbs: 2, CheckpointType: "auto", CheckpointInterval: 1000 * time.Second, Mode: config.DcpModeFinite, WrapMeta: true, RebalanceDelay: 2 * time.Second}
 			c := NewCluster(&o)
 			for vb := uint16(0); vb < 2; vb++ {
@@ -878,6 +882,14 @@ func init() {
 			// rebalance arrives
 			first := true
 			e.Cons.OnConsume = func(d *Delivered) {
+				if drained {
+					if d.Vb == 1 && d.Seq == 3 && first {
+						first = false
+						d.Ctx.Ack()
+						vrt.Sleep(5 * time.Second)
+					}
+					return
+				}
 				if first && d.Vb == 1 {
 					first = false
 					vrt.Sleep(5 * time.Second)
@@ -894,6 +906,9 @@ func init() {
 			vrt.Sleep(3 * time.Minute)
 			vrt.Quiesce()
 			desc := fmt.Sprintf("finite run, a rebalance 1 s into it, slow %s hook", hook)
+			if drained {
+				desc = "finite run, a rebalance 1 s into it with everything settled and stored but the end of vb1 not seen yet (the re-opened session has nothing left to stream; default schedule only)"
+			}
 			for vb := uint16(0); vb < 2; vb++ {
 				seen := map[uint64]bool{}
 				for _, d := range e.Cons.Events {
